@@ -3,7 +3,10 @@
 // Engine Q, complete product (no sampling) on the real code:
 //
 //	backend   hashmap, bbolt, fstree (each with immediate and shadow delete), the injected
-//	          runtime registry, the injected config database (thorough: also badger)
+//	          runtime registry with a prefix provider and with one single-value provider per
+//	          record, the injected config database (thorough: also badger); for the modifying
+//	          access paths also an injected hashmap whose look-up of the record fails once with
+//	          a generic error during the access
 //	flags     none, secret, crown jewel, both
 //	marking   how the privileged side marks the record: a Put of a flagged record, a Put
 //	          through an interface with AlwaysMakeSecret/AlwaysMakeCrownjewel, a plain Put
@@ -56,6 +59,7 @@ import (
 	"fmt"
 	"os"
 	"path"
+	"path/filepath"
 	"runtime"
 	"runtime/pprof"
 	"sort"
@@ -73,7 +77,7 @@ import (
 	_ "github.com/safing/portbase/database/storage/badger"
 	_ "github.com/safing/portbase/database/storage/bbolt"
 	_ "github.com/safing/portbase/database/storage/fstree"
-	_ "github.com/safing/portbase/database/storage/hashmap"
+	"github.com/safing/portbase/database/storage/hashmap"
 	"github.com/safing/portbase/formats/dsd"
 	"github.com/safing/portbase/log"
 	pbruntime "github.com/safing/portbase/runtime"
@@ -190,6 +194,11 @@ type backend struct {
 	readback bool // the marks of a record are what the privileged read-back shows (config)
 	prov     *memProvider
 	push     pbruntime.PushFunc
+	// runtime-single: every record of a cell is served by a single-value provider of its
+	// own, registered at exactly the record's key
+	singleReg *pbruntime.Registry
+	// hashmap-fault: a hashmap behind a wrapper whose Get can be armed to fail once
+	fault *faultStore
 	// serial is held for the whole cell on the hashmap backends: their Put is called with
 	// the record locked and then takes the map lock, while their query executor holds the
 	// map lock and locks every record in turn, so two cells working on one hashmap
@@ -237,6 +246,82 @@ func (p *memProvider) remove(key string) {
 	p.mu.Lock()
 	delete(p.m, key)
 	p.mu.Unlock()
+}
+
+// oneProvider is a single-value runtime provider that keeps the record it is given.
+type oneProvider struct {
+	mu  sync.Mutex
+	key string
+	r   record.Record
+}
+
+func (p *oneProvider) Set(r record.Record) (record.Record, error) {
+	if r.DatabaseKey() != p.key {
+		return nil, errors.New("key not served by this provider")
+	}
+	p.mu.Lock()
+	defer p.mu.Unlock()
+	p.r = r
+	return r, nil
+}
+
+func (p *oneProvider) Get(keyOrPrefix string) ([]record.Record, error) {
+	p.mu.Lock()
+	defer p.mu.Unlock()
+	if p.r == nil || keyOrPrefix != p.key {
+		return nil, nil
+	}
+	return []record.Record{p.r}, nil
+}
+
+func (p *oneProvider) clear() {
+	p.mu.Lock()
+	p.r = nil
+	p.mu.Unlock()
+}
+
+var errInjectedFault = errors.New("injected storage fault")
+
+// faultStore is an injected storage: a hashmap whose Get (which also serves the
+// controller's GetMeta) fails once with a generic error for every armed key.
+type faultStore struct {
+	storage.Interface
+	mu    sync.Mutex
+	armed map[string]bool
+}
+
+func (f *faultStore) Injected() bool { return true }
+
+func (f *faultStore) Get(key string) (record.Record, error) {
+	f.mu.Lock()
+	hit := f.armed[key]
+	delete(f.armed, key)
+	f.mu.Unlock()
+	if hit {
+		return nil, errInjectedFault
+	}
+	return f.Interface.Get(key)
+}
+
+func (f *faultStore) arm(keys ...string) {
+	f.mu.Lock()
+	for _, k := range keys {
+		f.armed[k] = true
+	}
+	f.mu.Unlock()
+}
+
+// disarm reports how many of the keys were still armed.
+func (f *faultStore) disarm(keys ...string) (left int) {
+	f.mu.Lock()
+	for _, k := range keys {
+		if f.armed[k] {
+			left++
+		}
+		delete(f.armed, k)
+	}
+	f.mu.Unlock()
+	return left
 }
 
 var (
@@ -304,6 +389,36 @@ func setup(c *vlib.Ctx, withBadger bool) error {
 			return err
 		}
 		b := &backend{kind: "runtime", db: name, prov: prov, push: push}
+		backends[b.id()] = b
+	}
+	// injected runtime registry with one single-value provider per record
+	{
+		name := "c03-runtime-single"
+		if _, err := database.Register(&database.Database{Name: name, Description: "C03 runtime, single-value providers", StorageType: database.StorageTypeInjected}); err != nil {
+			return err
+		}
+		reg := pbruntime.NewRegistry()
+		if err := reg.InjectAsDatabase(name); err != nil {
+			return err
+		}
+		b := &backend{kind: "runtime-single", db: name, singleReg: reg}
+		backends[b.id()] = b
+	}
+	// injected hashmap whose look-ups can be armed to fail
+	{
+		name := "c03-hashmap-fault"
+		if _, err := database.Register(&database.Database{Name: name, Description: "C03 faulty storage", StorageType: database.StorageTypeInjected}); err != nil {
+			return err
+		}
+		hm, err := hashmap.NewHashMap(name, "")
+		if err != nil {
+			return err
+		}
+		fs := &faultStore{Interface: hm, armed: map[string]bool{}}
+		if _, err := database.InjectDatabase(name, fs); err != nil {
+			return err
+		}
+		b := &backend{kind: "hashmap-fault", db: name, fault: fs}
 		backends[b.id()] = b
 	}
 	// injected config database
@@ -591,6 +706,7 @@ type result struct {
 	before          string
 	after           string
 	witnessOK       bool   // the unmarked sibling was returned/listed/fed in the same access
+	faultHit        bool   // hashmap-fault: the armed look-up failure was hit by the access
 	modBy           string // the access path after which the stored record differed
 	fedWhileAllowed int    // pushes of the record at a step at which its marks did not exclude the reader
 	trace           []string
@@ -606,7 +722,7 @@ func runCell(cell Cell, idx int64) (res result) {
 		res.engineErr = "unknown backend " + cell.Backend
 		return res
 	}
-	if b.kind == "hashmap" {
+	if b.kind == "hashmap" || b.kind == "hashmap-fault" {
 		b.serial.Lock()
 		defer b.serial.Unlock()
 	}
@@ -644,6 +760,31 @@ func runCell(cell Cell, idx int64) (res result) {
 		return res
 	}
 
+	cellPush := b.push
+	if b.singleReg != nil {
+		keys := []string{tKey, nKey}
+		if cell.Marking == "copy-putnew" {
+			keys = append(keys, sKey)
+		}
+		var provs []*oneProvider
+		for _, k := range keys {
+			p := &oneProvider{key: k}
+			push, err := b.singleReg.Register(k, p)
+			if err != nil {
+				return fail("register single-value provider", err)
+			}
+			provs = append(provs, p)
+			if k == tKey {
+				cellPush = push
+			}
+		}
+		defer func() {
+			for _, p := range provs {
+				p.clear()
+				pbruntime.VerifUnregister(b.singleReg, p.key)
+			}
+		}()
+	}
 	if b.kind == "config" {
 		cfgRegLock.Lock()
 		for _, k := range []string{tKey, nKey, sKey} {
@@ -676,6 +817,11 @@ func runCell(cell Cell, idx int64) (res result) {
 			b.prov.remove(nKey)
 			b.prov.remove(accKey)
 			b.prov.remove(sKey)
+		}
+		if b.kind == "fstree" {
+			base := filepath.Join(tmpRoot, "databases", b.db, "fstree", "r")
+			_ = os.RemoveAll(filepath.Join(base, fmt.Sprintf("c%d", idx)))
+			_ = os.RemoveAll(filepath.Join(base, fmt.Sprintf("s%d", idx)))
 		}
 		if b.kind == "config" {
 			config.VerifUnregister(tKey)
@@ -949,8 +1095,8 @@ func runCell(cell Cell, idx int64) (res result) {
 				continue
 			}
 			r.Lock()
-			if b.push != nil {
-				b.push(r)
+			if cellPush != nil {
+				cellPush(r)
 			} else {
 				ctrl.PushUpdate(r)
 			}
@@ -1153,8 +1299,29 @@ func runCell(cell Cell, idx int64) (res result) {
 		}
 	}
 
+	// hashmap-fault: the next look-up of the record's key (in either spelling) fails once
+	arm := func() {
+		if b.fault != nil {
+			b.fault.arm(tKey, accKey)
+			res.trace = append(res.trace, "storage armed: the next Get of the key fails with a generic error")
+		}
+	}
+	disarm := func() {
+		if b.fault != nil {
+			armedN := 1
+			if accKey != tKey {
+				armedN = 2
+			}
+			if left := b.fault.disarm(tKey, accKey); left < armedN {
+				res.trace = append(res.trace, "(the armed fault was consumed)")
+				res.faultHit = true
+			}
+		}
+	}
 	if cell.Pre != "" {
+		arm()
 		access(cell.Pre)
+		disarm()
 		if res.engineErr != "" {
 			return res
 		}
@@ -1170,7 +1337,9 @@ func runCell(cell Cell, idx int64) (res result) {
 		res.success, res.outcome, res.witnessOK, res.fedWhileAllowed = false, "", false, 0
 	}
 	res.checkMod, res.modBy = true, cell.Path
+	arm()
 	access(cell.Path)
+	disarm()
 	res.after = snap(b, tKey)
 
 	// A reader whose own cache was filled before the marking may be served that
@@ -1261,6 +1430,9 @@ func judge(c *vlib.Ctx, r result) (violated bool) {
 		if r.cell.Alias != "" {
 			v.site += "@alias-key"
 		}
+		if r.cell.Backend == "hashmap-fault" {
+			v.site += "@lookup-fault"
+		}
 		w := witness{Cell: r.cell, Trace: r.trace}
 		if v.mod {
 			w.Before, w.After = r.before, r.after
@@ -1277,6 +1449,9 @@ func violationSigs(r result) []string {
 	for _, v := range findViolations(r) {
 		if r.cell.Alias != "" {
 			v.site += "@alias-key"
+		}
+		if r.cell.Backend == "hashmap-fault" {
+			v.site += "@lookup-fault"
 		}
 		out = append(out, v.clause+"|"+v.site+"|"+v.disc)
 	}
@@ -1384,7 +1559,12 @@ func main() {
 
 		// groups, ordered so that neighbouring work items hit different backends
 		var bks []*backend
+		var faultBk *backend
 		for _, b := range backends {
+			if b.fault != nil {
+				faultBk = b // only used for the modifying access paths, see (a'')
+				continue
+			}
 			bks = append(bks, b)
 		}
 		sort.Slice(bks, func(i, j int) bool { return bks[i].id() < bks[j].id() })
@@ -1395,7 +1575,12 @@ func main() {
 		seqCaches := []string{"none", "warm-get"}
 		seqRecs, seqDepths := []string{"wrapper"}, []int{1}
 		seqFMs := baseFlagMarkings // quick: the two PutNew markings only with single accesses
-		seqBks := bks
+		var seqBks []*backend      // quick: without the shadow-delete variants
+		for _, b := range bks {
+			if thorough || !b.shadow {
+				seqBks = append(seqBks, b)
+			}
+		}
 		if thorough {
 			seqFMs = nil
 			readerOpts = []string{"", "always-secret", "always-crown", "always-expiry"}
@@ -1430,9 +1615,10 @@ func main() {
 		// resolves every spelling to the record's file: all six there; on the other backends a
 		// spelling is another key: one control column.
 		aliasRecs, aliasDepths := []string{"wrapper"}, []int{1}
-		aliasCaches := caches
+		aliasCaches := []string{"none", "warm-get", "warm-put"} // quick: without the cold cache
+		aliasFMs := baseFlagMarkings                            // quick: without the two PutNew markings
 		if thorough {
-			aliasRecs, aliasDepths = recs, depths
+			aliasRecs, aliasDepths, aliasCaches, aliasFMs = recs, depths, caches, nil
 		}
 		for _, rec := range aliasRecs {
 			for _, depth := range aliasDepths {
@@ -1450,7 +1636,10 @@ func main() {
 								if b.kind != "fstree" && al != aliasKinds[0] {
 									continue
 								}
-								groups = append(groups, group{backend: b, rec: rec, depth: depth, cache: cache, alias: al, path: path})
+								if !thorough && b.kind == "fstree" && b.shadow {
+									continue // quick: key resolution does not depend on the delete mode
+								}
+								groups = append(groups, group{backend: b, rec: rec, depth: depth, cache: cache, alias: al, path: path, fms: aliasFMs})
 							}
 						}
 					}
@@ -1458,6 +1647,27 @@ func main() {
 			}
 		}
 		nAlias := len(groups) - nSingle
+		nSingle = len(groups)
+		// (a'') the modifying access paths on the storage whose look-up of the record fails
+		// once with a generic error exactly during the access (an environment fault: the
+		// pre-check of a write cannot read the stored record)
+		for _, rec := range aliasRecs {
+			for _, depth := range aliasDepths {
+				for _, path := range append(append([]string{}, ifacePaths...), apiPaths...) {
+					if fam := pathFamily(path); fam != "put" && fam != "update-by-key" {
+						continue
+					}
+					isAPI := strings.HasPrefix(path, "api:")
+					for _, cache := range caches {
+						if isAPI && cache != "none" {
+							continue
+						}
+						groups = append(groups, group{backend: faultBk, rec: rec, depth: depth, cache: cache, path: path})
+					}
+				}
+			}
+		}
+		nFault := len(groups) - nSingle
 		nSingle = len(groups)
 		// (b) two accesses of the same reader in a row: every non-feed access followed by every access
 		for _, rec := range seqRecs {
@@ -1570,6 +1780,9 @@ func main() {
 				if r.denied && r.witnessOK {
 					oc += "/sibling-seen"
 				}
+				if r.faultHit {
+					oc += "/lookup-failed"
+				}
 				if len(r.leaks) > 0 || r.fedWhileAllowed > 0 {
 					oc += "/record-seen"
 				}
@@ -1650,6 +1863,6 @@ func main() {
 		}())
 		c.Extra("bounds", map[string]any{"flags_x_marking": len(flagMarkings), "flags_x_marking_for_two_accesses_quick": len(baseFlagMarkings), "reader_privileges": 4, "cache_settings": 4,
 			"interface_paths": len(ifacePaths), "api_paths": len(apiPaths), "record_types": recs, "key_depths": depths,
-			"reader_option_variants": readerOpts, "groups_single_access": nSingle, "groups_single_access_with_alias_key": nAlias, "alias_spellings": aliasKinds, "groups_two_accesses": len(groups) - nSingle, "caches_for_two_accesses": seqCaches, "record_types_for_two_accesses": seqRecs, "key_depths_for_two_accesses": seqDepths, "history_depth": "<= 3 privileged writes, <= 1 reader pre-access, 1 access, <= 3 privileged writes while a feed is open"})
+			"reader_option_variants": readerOpts, "groups_single_access": nSingle, "groups_single_access_with_alias_key": nAlias, "groups_single_access_with_storage_fault": nFault, "alias_spellings": aliasKinds, "groups_two_accesses": len(groups) - nSingle, "caches_for_two_accesses": seqCaches, "record_types_for_two_accesses": seqRecs, "key_depths_for_two_accesses": seqDepths, "history_depth": "<= 3 privileged writes, <= 1 reader pre-access, 1 access, <= 3 privileged writes while a feed is open"})
 	})
 }
